@@ -4,6 +4,7 @@ package c10b
 
 import (
 	"fmt"
+	"os"
 	"regexp"
 	"sort"
 	"strings"
@@ -16,6 +17,9 @@ var siteRe = regexp.MustCompile(`(?m)^\s+(/\S+/circl\S*|/repo/\S+|/tmp/wt\S+):(\
 
 // TestScratchSites lists distinct panic sites over the deterministic inputs (dev only).
 func TestScratchSites(t *testing.T) {
+	if os.Getenv("C10B_SCRATCH") == "" {
+		t.Skip("dev only")
+	}
 	sites := map[string]string{}
 	try := func(e *Entry, in []byte) {
 		p, st := vlib.Catch(func() { e.Call(in) })
